@@ -7,7 +7,7 @@ import builders as B
 from smtlib import read_all, SmtError, Atom, is_sym
 from ratdrv import big
 
-TDRIVER = os.path.join(C.VERIF, "build", "drivers", "rel", "terms_driver")
+TDRIVER = os.path.join(C.BUILD, "drivers", "rel", "terms_driver")
 
 def rand_digits(rng, n, lead_zero=False):
     s = "".join(rng.choice("0123456789") for _ in range(n))
